@@ -262,8 +262,12 @@ def judge(item: dict[str, Any], box: dict[str, Any], choices: list[int], res: Re
     steps = item["steps"]
     rp = {"item": item, "choices": choices}
 
+    def short(x: Any) -> str:
+        t = str(x)
+        return t if len(t) <= 400 else t[:200] + f"...({len(t)} chars)..." + t[-60:]
+
     def v(sig: str, m: str) -> None:
-        res.violate(f"C11|{sig}", m + f" [steps={steps} cancel={item.get('cancel', False)}]", rp)
+        res.violate(f"C11|{sig}", short(m) + f" [steps={short(steps)} cancel={item.get('cancel', False)}]", rp)
 
     if box["status"] != "done":
         v(f"shutdown-hangs|{box['status']}", f"run/shutdown did not finish ({box['status']}); pending db ops: {[p[0] for p in box['worker'].pending]}")
@@ -474,6 +478,11 @@ def items(tier: str, seed: int) -> list[Any]:
         for oc in outcomes:
             out.append(({"steps": [("req", q, oc, False)]}, 0, cap))
         out.append(({"steps": [("req", q, ("reply", r), True), ("req", q, ("reply", r), False)], "cancel": True}, 1, cap))
+    # long messages (beyond 4095 bytes: DoIP / HSFZ / TCP deliver them)
+    for n in (4095, 4096, 5000):
+        big = "aa" * n
+        out.append(({"steps": [("req", "221234", ("reply", "621234" + big), False)]}, 0, cap))
+        out.append(({"steps": [("req", "3601" + big, ("reply", "7601"), True), ("req", "221234", ("reply", "621234" + big), False)]}, 0, cap))
     # (ii) sequences
     names = list(ALPHA)
     L = 3 if quick else 4
